@@ -117,7 +117,7 @@ def gen_scn(r, k, forced=None):
     p_save = f.get("p_save", r.choice([0.0, 0.0, 0.08]))
     p_restart = f.get("p_restart", r.choice([0.0, 0.0, 0.06]))
     can_rebin = use_grids and c["keep"] and not any(v["expand"] for v in vars_) and not c["eb"]
-    can_rebin_grids = use_grids and not c["keep"] and not c["eb"]
+    can_rebin_grids = use_grids and not c["keep"] and not c["eb"] and nd < 3     # (84^3 bins dumped at every step otherwise)
     rebin_on = False
     p_reconf = f.get("p_reconf", 0.3)
     events = []
